@@ -807,6 +807,21 @@ func (e *SpecEnv) evalCall(x *SCall) Val {
 				c.note("returned(%s) is used at a point the call does not dominate: meaningful only under a guard that implies the call happened", id.Name)
 			}
 			return v
+		case "before": // before(NAME, E): E evaluated in the state in which the latest call of NAME started
+			id, ok := x.Args[0].(*SIdent)
+			if !ok || len(x.Args) != 2 {
+				e.fail("before() takes a call name and an expression")
+			}
+			st, found := c.callPre[id.Name]
+			if !found {
+				e.fail("before(%s, ..): no call of %s precedes this point", id.Name, id.Name)
+			}
+			ne := e.clone()
+			ne.st = st
+			for i, a := range c.callPreArgs[id.Name] {
+				ne.names[fmt.Sprintf("arg%d", i)] = a // the call's own arguments
+			}
+			return ne.eval(x.Args[1])
 		case "effects":
 			return Val{T: types.Typ[types.Int], S: e.st.get(HeapKey{Name: "G_effects", Sort: "Int"})}
 		case "calls": // calls(NAME): how many calls of NAME this activation has made so far (ghost counter, callassert.go)
